@@ -603,13 +603,13 @@ class CallMixin:
         return cache[key][0]
 
     def set_card_fn(self, S):
-        """len(S) of a set of integers as an uninterpreted function `set.card` of the set value (opt-in of the sidecar:
+        """len(S) of a set of integers as an uninterpreted function `len.set` of the set value (opt-in of the sidecar:
         SET_CARD_FUNCTION; usable under comprehension / map binders, where a per-call unknown would be wrong).  Only what
         holds of every len() is assumed: it is not negative; sidecars add what else they need as listed lemmas."""
-        new = "set.card" not in self.ufuns
-        f = self.ufun("set.card", z3.ArraySort(z3.IntSort(), z3.BoolSort()), z3.IntSort())
+        new = "len.set" not in self.ufuns
+        f = self.ufun("len.set", z3.ArraySort(z3.IntSort(), z3.BoolSort()), z3.IntSort())
         if new:
-            a = z3.Const("set.card!S", z3.ArraySort(z3.IntSort(), z3.BoolSort()))
+            a = z3.Const("len.set!S", z3.ArraySort(z3.IntSort(), z3.BoolSort()))
             self.global_facts.append(z3.ForAll([a], f(a) >= 0, patterns=[f(a)]))
         return f(S.mem)
 
@@ -690,17 +690,11 @@ class CallMixin:
         digits = z3.Plus(z3.Range("0", "9"))
         ws = z3.Star(z3.Union(z3.Re(" "), z3.Re("\t"), z3.Re("\n"), z3.Re("\r"), z3.Re("\x0b"), z3.Re("\x0c")))
         us = z3.Concat(digits, z3.Star(z3.Concat(z3.Re("_"), digits)))
-        ok = z3.InRe(z, z3.Concat(ws, z3.Option(z3.Union(z3.Re("+"), z3.Re("-"))), us, ws))
+        # (plain digit strings are accepted: the first disjunct is included in the second - stated so that the common case
+        # needs no reasoning about regular languages)
+        ok = z3.Or(z3.InRe(z, digits), z3.InRe(z, z3.Concat(ws, z3.Option(z3.Union(z3.Re("+"), z3.Re("-"))), us, ws)))
         self.may_raise(NOT(ok), "ValueError", node)
         f = self.ufun("py_int", z3.StringSort(), z3.IntSort())
-        if not self.__dict__.get("_py_int_facts"):
-            # the same two facts closed over every string (usable where z depends on a comprehension / map position):
-            # a plain digit string is accepted (inclusion of regular languages) and denotes its decimal value
-            self._py_int_facts = True
-            zz = z3.String("py_int!z")
-            okre = z3.Concat(ws, z3.Option(z3.Union(z3.Re("+"), z3.Re("-"))), us, ws)
-            self.global_facts.append(z3.ForAll([zz], z3.Implies(z3.InRe(zz, digits), z3.And(z3.InRe(zz, okre), f(zz) == z3.StrToInt(zz))),
-                                               patterns=[f(zz), z3.InRe(zz, okre)]))
         st.assume(z3.Implies(z3.InRe(z, digits), f(z) == z3.StrToInt(z)))
         # a leading minus sign negates: int("-" + d) == -int(d) for a plain digit string d
         tail = z3.SubString(z, 1, z3.Length(z) - 1)
